@@ -8,16 +8,18 @@
 
   Vocabulary (Model.lean): `step env s tx` is one DeliverTx (Validate, handler, fee step; a failure
   anywhere leaves the state untouched); `Env.payer` is the address of the key that signed; `run s evs` folds a history of transactions and block commits;
-  `St.recs` is the registry a reader sees, `St.tree` the names whose key is in the committed tree
-  (what `IterateSubDomain` can enumerate); `RegInv` says stored names are valid and every sub-name
-  carries its parent's owner and expiry; `Auth env s tx n` lists the four entitlements to change
-  record `n`; `histSees s evs` says that whenever a purchase or renew ran, every sub-name of its
-  target was already committed (none was created earlier in the same block).
+  `St.recs` is the registry a reader — and, since /repo 487c936, every sub-name iteration
+  (`IterateSubDomain` → `State.IterateRangeAll`) — sees; `RegInv` says stored names are valid and
+  every sub-name carries its parent's owner and expiry; `Auth env s tx n` lists the four
+  entitlements to change record `n`.
 
-  Two clauses are false of the code as written (known findings KF-C20-1/2, replayed on the
-  implementation from corpus/C20 on every run); each keeps its full statement in a comment, a
-  `_partial` theorem under exactly the hypothesis the code forces, and a proved concrete
-  counterexample.  The expiry clause is at full strength since the repair of KF-C20-3 (f3370a9).
+  All clauses are at full strength: the three former known findings were repaired in /repo
+  (KF-C20-3: f3370a9 `blocksFor`; KF-C20-1/2: 487c936, sub-name iterations visit keys written
+  earlier in the same block).  Their former counterexamples are kept as regression examples with
+  the repaired outcome; their witnesses are the regression scenarios corpus/C20/reg_*.hist.  What
+  remains as a hypothesis is only the chain start: `RegInv` of the genesis registry (an empty
+  registry has it; a genesis file listing sub-names with another owner / expiry than their parent
+  is trusted input).
 -/
 import OLP.Ons.Lemmas
 
@@ -96,8 +98,8 @@ theorem create_needs_absent_name (env : Env) (s s' : St) (o b : Addr) (n : Name)
     alookup n s.recs = none ∧ (∃ d, alookup n s'.recs = some d ∧ d.owner = o) ∧
     ∀ k, k ≠ n → alookup k s'.recs = alookup k s.recs := by
   obtain ⟨hv, s1, h1, h2⟩ := step_ok h
-  obtain ⟨_, _, _, _, hfr, _⟩ := feeStep_ok h2
-  obtain ⟨_, habs, _, _, _, _, _, d, hrecs, hown, _⟩ := runCreate_ok h1
+  obtain ⟨_, _, _, _, hfr⟩ := feeStep_ok h2
+  obtain ⟨_, habs, _, _, _, _, d, hrecs, hown, _⟩ := runCreate_ok h1
   refine ⟨habs, ⟨d, by rw [hfr, hrecs, alookup_upsert_self], hown⟩, fun k hk => ?_⟩
   rw [hfr, hrecs, alookup_upsert_ne _ _ _ _ hk]
 
@@ -106,85 +108,58 @@ example : ∃ s', step (envAt 4 "bb") sOnSale (.create "bb" "" ["bar", "ol"] "" 
   ⟨_, step_ok_intro (by decide)⟩
 example : (step (envAt 4 "bb") sOnSale (.create "bb" "" foo "" true 1010 "OLT")).1 = .fail .exists_ := by decide
 
-/-
-  FULL STATEMENT (false of the code): in every reachable state a sub-name has the owner and the
-  expiry height of its parent,
-      ∀ s0 evs, RegInv s0 → RegInv (run s0 evs).
-  `DomainStore.IterateSubDomain` enumerates only keys of the committed tree, so a sub-name created
-  earlier in the same block is neither deleted by the purchase of its parent nor moved by its
-  renewal (KF-C20-1, KF-C20-2; counterexamples below).  The hypothesis the code forces is
-  `histSees`: at every purchase / renew all sub-names of the target were already committed.
--/
-
-/-- sub-names follow their parent (owner and expiry) along every history in which purchases and
-    renewals see all sub-names of their target -/
-theorem subs_follow_parent_partial (s0 : St) (h0 : RegInv s0) (evs : List Ev) (hs : histSees s0 evs = true) :
-    RegInv (run s0 evs) := inv_run evs h0 hs
-
-/-- spelled out: in every state reached that way a sub-name has a parent record with the same
-    owner and the same expiry height (it has one owner, and it expires with its parent) -/
-theorem sub_expires_with_parent_partial (s0 : St) (h0 : s0.recs = []) (evs : List Ev) (hs : histSees s0 evs = true)
-    (n : Name) (d : Domain) (hn : alookup n (run s0 evs).recs = some d) (h3 : 3 ≤ n.length) :
-    ∃ p, alookup (parentOf n) (run s0 evs).recs = some p ∧ p.owner = d.owner ∧ p.expire = d.expire := by
-  have hi : RegInv (run s0 evs) := inv_run evs (fun n d hd => by rw [h0] at hd; cases hd) hs
-  exact (hi n d hn).2 h3
-
-/-- … in particular, unconditionally, along every history with one transaction per block -/
-theorem subs_follow_parent_one_tx_per_block (s0 : St) (h0 : RegInv s0) (hc : ∀ k, k ∈ akeys s0.recs → k ∈ s0.tree)
-    (evs : List Ev) (h1 : oneTxPerBlock evs = true) : RegInv (run s0 evs) :=
-  inv_run evs h0 (histSees_of_oneTxPerBlock evs hc h1)
-
 /-- the start of every chain satisfies the hypotheses (empty registry, any balances) -/
-theorem genesis_inv (s0 : St) (h : s0.recs = []) : RegInv s0 ∧ (akeys s0.recs).Nodup ∧ ∀ k, k ∈ akeys s0.recs → k ∈ s0.tree := by
-  refine ⟨fun n d hd => ?_, ?_, fun k hk => ?_⟩
+theorem genesis_inv (s0 : St) (h : s0.recs = []) : RegInv s0 ∧ (akeys s0.recs).Nodup := by
+  refine ⟨fun n d hd => ?_, ?_⟩
   · rw [h] at hd; cases hd
   · rw [h]; exact List.nodup_nil
-  · rw [h] at hk; cases hk
 
-example : histSees genesis setup = true ∧ oneTxPerBlock setup = true ∧ invB sOnSale = true := by decide
-example : RegInv sOnSale := subs_follow_parent_partial genesis (genesis_inv genesis rfl).1 setup (by decide)
+/-- in every reachable state — any history of transactions and block commits, any number of
+    transactions per block — a sub-name has the owner and the expiry height of its parent (full
+    strength since 487c936: purchase deletes, and renew moves, *every* visible sub-name) -/
+theorem subs_follow_parent (s0 : St) (h0 : RegInv s0) (evs : List Ev) : RegInv (run s0 evs) := inv_run evs h0
 
-/-- KF-C20-1 (witness = corpus/C20/kf1_pending_sub_survives_purchase.hist): aa creates x.foo.ol and,
-    in the same block, bb buys foo.ol -/
+/-- spelled out from a chain start: a sub-name has a parent record with the same owner and the
+    same expiry height (it has one owner, and it expires with its parent) -/
+theorem sub_expires_with_parent (s0 : St) (h0 : s0.recs = []) (evs : List Ev)
+    (n : Name) (d : Domain) (hn : alookup n (run s0 evs).recs = some d) (h3 : 3 ≤ n.length) :
+    ∃ p, alookup (parentOf n) (run s0 evs).recs = some p ∧ p.owner = d.owner ∧ p.expire = d.expire :=
+  ((inv_run evs (genesis_inv s0 h0).1) n d hn).2 h3
+
+/-- block boundaries do not matter to the registry any more -/
+theorem commits_are_invisible (s : St) : (run s [.commit]).recs = s.recs := rfl
+
+example : invB sOnSale = true ∧ sOnSale.recs.length = 2 := by decide
+example : RegInv sOnSale := subs_follow_parent genesis (genesis_inv genesis rfl).1 setup
+
+/-- regression for KF-C20-1 (witness = corpus/C20/reg_sub_created_in_block_of_purchase.hist): aa
+    creates x.foo.ol and, in the same block, bb buys foo.ol -/
 def kf1 : List Ev :=
   [ .tx (envAt 1 "aa") (.create "aa" "" foo "" true 1500 "OLT"), .commit,
     .tx (envAt 2 "aa") (.sale "aa" foo 200 "OLT" false), .commit,
     .tx (envAt 3 "aa") (.create "aa" "" xfoo "" true 1001 "OLT"),
     .tx (envAt 3 "bb") (.purchase "bb" "bb" foo 300 "OLT"), .commit ]
 
-/-- after the purchase foo.ol belongs to bb while x.foo.ol still exists and belongs to aa -/
-theorem pending_sub_survives_purchase :
+/-- the purchase deletes the sub-name created earlier in the same block (it used to survive,
+    still owned by aa); aa can no longer touch it, and bb may create it afresh -/
+theorem pending_sub_deleted_by_purchase :
     (alookup foo (run genesis kf1).recs).map (·.owner) = some "bb" ∧
-    (alookup xfoo (run genesis kf1).recs).map (·.owner) = some "aa" ∧
-    histSees genesis kf1 = false ∧ invB (run genesis kf1) = false := by decide
+    alookup xfoo (run genesis kf1).recs = none ∧ invB (run genesis kf1) = true ∧
+    (step (envAt 4 "aa") (run genesis kf1) (.update "aa" "aa" xfoo true "" true)).1 = .fail .notFound ∧
+    (step (envAt 4 "aa") (run genesis kf1) (.create "aa" "" xfoo "" true 1001 "OLT")).1 = .fail .parentNotOwned ∧
+    (step (envAt 4 "bb") (run genesis kf1) (.create "bb" "" xfoo "" true 1001 "OLT")).1 = .ok := by decide
 
-theorem sub_owner_follows_parent_fails : ¬ (∀ s0 evs, RegInv s0 → RegInv (run s0 evs)) := by
-  intro hall
-  have hi := hall genesis kf1 (genesis_inv genesis rfl).1
-  obtain ⟨h1, h2, _⟩ := pending_sub_survives_purchase
-  cases hx : alookup xfoo (run genesis kf1).recs with
-  | none => rw [hx] at h2; cases h2
-  | some d =>
-    obtain ⟨p, hp, hpo, _⟩ := (hi xfoo d hx).2 (by decide)
-    have hp' : alookup foo (run genesis kf1).recs = some p := hp
-    rw [hp'] at h1
-    rw [hx] at h2
-    simp only [Option.map_some, Option.some.injEq] at h1 h2
-    rw [h1, h2] at hpo
-    exact absurd hpo (by decide)
-
-/-- KF-C20-2 (witness = corpus/C20/kf2_pending_sub_misses_renewal.hist): aa creates x.foo.ol and,
-    in the same block, renews foo.ol for 3 blocks -/
+/-- regression for KF-C20-2 (witness = corpus/C20/reg_sub_created_in_block_of_renewal.hist): aa
+    creates x.foo.ol and, in the same block, renews foo.ol for 3 blocks -/
 def kf2 : List Ev :=
   [ .tx (envAt 1 "aa") (.create "aa" "" foo "" true 1500 "OLT"), .commit,
     .tx (envAt 2 "aa") (.create "aa" "" xfoo "" true 1001 "OLT"),
     .tx (envAt 2 "aa") (.renew "aa" foo 30 "OLT"), .commit ]
 
-/-- the parent now expires at 53, the sub-name still at 50 -/
-theorem pending_sub_misses_renewal :
+/-- parent and sub-name now both expire at 53 (the sub-name used to stay at 50) -/
+theorem pending_sub_follows_renewal :
     (alookup foo (run genesis kf2).recs).map (·.expire) = some 53 ∧
-    (alookup xfoo (run genesis kf2).recs).map (·.expire) = some 50 ∧
-    histSees genesis kf2 = false := by decide
+    (alookup xfoo (run genesis kf2).recs).map (·.expire) = some 53 := by decide
 
 /-! ## 2. Records change only through the owner, or through a purchase -/
 
@@ -210,16 +185,10 @@ example : (step (envAt 4 "bb") sOnSale (.deleteSub "bb" foo)).2.recs = sOnSale.r
     (step (envAt 4 "bb") sOnSale (.sale "bb" foo 200 "OLT" true)).2.recs = sOnSale.recs ∧
     (step (envAt 4 "bb") sOnSale (.create "bb" "" ["y", "foo", "ol"] "" true 1001 "OLT")).2.recs = sOnSale.recs := by decide
 
-/-
-  FULL STATEMENT (false of the code): every change of a record is signed by the *current owner of
-  the name* (for a sub-name: of its parent), or is a first registration, or a purchase,
-      ∀ env s tx n, s reachable → changed n → RootAuth.
-  A sub-name that survived the purchase of its parent (KF-C20-1) still carries the previous
-  owner's address, and `runUpdate` / `runDeleteSub(sub)` check only that recorded address
-  (counterexample `stale_sub_changed_by_previous_owner`).  Forced hypothesis: `RegInv s`, which holds
-  in every state reached by a history with `histSees` (theorem `subs_follow_parent_partial`).
--/
-theorem changes_need_root_owner_partial (env : Env) (s : St) (hi : RegInv s) (tx : Tx) (n : Name)
+/-- every change of a record is signed by the *current owner of the name* (for a sub-name: of its
+    parent), or is a first registration, or a purchase of the (root) name that is on sale or
+    expired.  `RegInv s` holds in every reachable state (`subs_follow_parent`). -/
+theorem changes_need_root_owner (env : Env) (s : St) (hi : RegInv s) (tx : Tx) (n : Name)
     (hch : alookup n (step env s tx).2.recs ≠ alookup n s.recs) :
     (∃ p, alookup (rootOf n) s.recs = some p ∧ p.owner = tx.signer) ∨
     (alookup n s.recs = none ∧ isSub n = false ∧ ∃ b u uo p c, tx = .create tx.signer b n u uo p c) ∨
@@ -227,28 +196,23 @@ theorem changes_need_root_owner_partial (env : Env) (s : St) (hi : RegInv s) (tx
       (d.onSale = true ∨ d.expire < env.version)) :=
   rootAuth_of_auth hi (auth_of_change hch)
 
-/-- the same for every state reached from a chain start by a history satisfying `histSees` -/
-theorem changes_need_root_owner_reachable_partial (s0 : St) (h0 : s0.recs = []) (evs : List Ev)
-    (hs : histSees s0 evs = true) (env : Env) (tx : Tx) (n : Name)
+/-- the same, unconditionally, for every state reached from a chain start by any history -/
+theorem changes_need_root_owner_reachable (s0 : St) (h0 : s0.recs = []) (evs : List Ev)
+    (env : Env) (tx : Tx) (n : Name)
     (hch : alookup n (step env (run s0 evs) tx).2.recs ≠ alookup n (run s0 evs).recs) :
     (∃ p, alookup (rootOf n) (run s0 evs).recs = some p ∧ p.owner = tx.signer) ∨
     (alookup n (run s0 evs).recs = none ∧ isSub n = false ∧ ∃ b u uo p c, tx = .create tx.signer b n u uo p c) ∨
     (∃ b a o c d, tx = .purchase b a (rootOf n) o c ∧ alookup (rootOf n) (run s0 evs).recs = some d ∧
       (d.onSale = true ∨ d.expire < env.version)) :=
-  changes_need_root_owner_partial env _ (inv_run evs (genesis_inv s0 h0).1 hs) tx n hch
+  changes_need_root_owner env _ (inv_run evs (genesis_inv s0 h0).1) tx n hch
 
 example : RegInv sOnSale ∧ alookup xfoo (step (envAt 5 "aa") sOnSale (.deleteSub "aa" foo)).2.recs ≠ alookup xfoo sOnSale.recs :=
   ⟨inv_of_invB (by decide), by decide⟩
 
-/-- counterexample to the full statement: after `kf1` the previous owner aa still updates
-    x.foo.ol (new beneficiary, re-activated) although foo.ol belongs to bb, and bb's own update of
-    that sub-name is refused -/
-theorem stale_sub_changed_by_previous_owner :
-    (alookup foo (run genesis kf1).recs).map (·.owner) = some "bb" ∧
-    (step (envAt 4 "aa") (run genesis kf1) (.update "aa" "aa" xfoo true "" true)).1 = .ok ∧
-    alookup xfoo (step (envAt 4 "aa") (run genesis kf1) (.update "aa" "aa" xfoo true "" true)).2.recs
-      ≠ alookup xfoo (run genesis kf1).recs ∧
-    (step (envAt 4 "bb") (run genesis kf1) (.update "bb" "bb" xfoo true "" true)).1 = .fail .notOwner := by decide
+/-- regression for the consequence of KF-C20-1 (`stale_sub_changed_by_previous_owner`): after `kf1`
+    there is no stale sub-name left for the previous owner to change — every record's owner of
+    authority is bb -/
+example : (run genesis kf1).recs.map (fun p => (p.1, p.2.owner)) = [(foo, "bb")] := by decide
 
 /-- DOMAIN_SEND is a payment to the name's beneficiary in any registered currency `c`: the registry
     is untouched, the sender (who signed) pays amount (+ fee in the chain currency), the beneficiary
@@ -261,8 +225,8 @@ theorem send_pays_beneficiary_keeps_registry (env : Env) (s s' : St) (f : Addr) 
       ∀ x : Acct, bal s'.bals x = bal s.bals x - (if x = (f, c) then amt else 0) + (if x = (d.benef, c) then amt else 0)
                              - (if x = (env.payer, env.olt) then env.feePrice * g else 0) := by
   obtain ⟨hv, s1, h1, h2⟩ := step_ok h
-  obtain ⟨g, hg, hfd, hfp, hfr, _⟩ := feeStep_ok h2
-  obtain ⟨d, b1, hd, hamt, _, hact, _, hdb, hb, hrecs, _, hpool⟩ := runSend_ok h1
+  obtain ⟨g, hg, hfd, hfp, hfr⟩ := feeStep_ok h2
+  obtain ⟨d, b1, hd, hamt, _, hact, _, hdb, hb, hrecs, hpool⟩ := runSend_ok h1
   refine ⟨by rw [hfr, hrecs], (validate_ok hv).1, d, g, hd, hg, hamt, ?_, ?_, by rw [hfp, hpool], fun x => ?_⟩
   · simp [activeAt] at hact; exact hact.1
   · simp [activeAt] at hact; exact hact.2
@@ -274,22 +238,23 @@ example : (step (envAt 5 "bb") sOnSale (.send "bb" xfoo 70 "OLT")).1 = .ok ∧ b
 /-! ## 3. A purchase pays the previous owner the asking price, or the base price for an expired name -/
 
 /-- only a name that is on sale or expired can be bought; the buyer becomes the owner, the sale
-    flag is cleared, and the sub-names the iteration sees are deleted -/
+    flag is cleared, and every sub-name of the bought name is deleted -/
 theorem purchase_needs_sale_or_expiry (env : Env) (s s' : St) (b a : Addr) (n : Name) (o : Int) (c : Cur)
     (h : step env s (.purchase b a n o c) = (.ok, s')) :
     ∃ d d', alookup n s.recs = some d ∧ (d.onSale = true ∨ d.expire < env.version) ∧ isSub n = false ∧
       alookup n s'.recs = some d' ∧ d'.owner = b ∧ d'.onSale = false ∧ d'.salePrice = none ∧ d'.benef = a ∧
-      ∀ k, visSub s.tree n k = true → alookup k s'.recs = none := by
+      ∀ k, isSubOf k n = true → alookup k s'.recs = none := by
   obtain ⟨hv, s1, h1, h2⟩ := step_ok h
-  obtain ⟨_, _, _, _, hfr, _⟩ := feeStep_ok h2
-  obtain ⟨d, hd, hsub, hfs, _, _, hbr⟩ := runPurchase_ok h1
-  have hrecs : ∃ x, s1.recs = upsert (eraseSel (visSub s.tree n) s.recs) n (resetAfterSale d b a x env.version) := by
+  obtain ⟨_, _, _, _, hfr⟩ := feeStep_ok h2
+  obtain ⟨d, hd, hsub, hfs, _, hbr⟩ := runPurchase_ok h1
+  have hrecs : ∃ x, s1.recs = upsert (eraseSel (visSub n) s.recs) n (resetAfterSale d b a x env.version) := by
     rcases hbr with ⟨_, _, _, _, _, _, _, _, _, _, _, hr⟩ | ⟨_, _, _, _, _, _, hr⟩
     · exact ⟨_, hr⟩
     · exact ⟨_, hr⟩
   obtain ⟨x, hrecs⟩ := hrecs
   refine ⟨d, resetAfterSale d b a x env.version, hd, hfs, hsub, by rw [hfr, hrecs, alookup_upsert_self], rfl, rfl, rfl, rfl,
     fun k hk => ?_⟩
+  have hk : visSub n k = true := hk
   have hkn : k ≠ n := by
     intro e; subst e
     have := isSubOf_length (visSub_isSubOf hk)
@@ -313,8 +278,8 @@ theorem purchase_pays_owner_at_least_price (env : Env) (s s' : St) (b a : Addr) 
   have hc : c = env.olt := (validateKind_ok hk).1 c rfl
   have hpay' : env.payer = b := hpay
   subst hc
-  obtain ⟨g, hg, hfd, hfp, _, _⟩ := feeStep_ok h2
-  obtain ⟨d0, hd0, _, _, _, _, hbr⟩ := runPurchase_ok h1
+  obtain ⟨g, hg, hfd, hfp, _⟩ := feeStep_ok h2
+  obtain ⟨d0, hd0, _, _, _, hbr⟩ := runPurchase_ok h1
   rw [hd] at hd0; cases hd0
   rcases hbr with ⟨_, _, price, b0, _, hsp, hle, hdb0, hdb2, hpool, _⟩ | ⟨hn, _⟩
   · refine ⟨rfl, hpay', hsig, price, g, hsp, hle, hg, by rw [hfp, hpool], fun x => ?_⟩
@@ -339,8 +304,8 @@ theorem expired_purchase_pays_base (env : Env) (s s' : St) (b a : Addr) (n : Nam
   have hc : c = env.olt := (validateKind_ok hk).1 c rfl
   have hpay' : env.payer = b := hpay
   subst hc
-  obtain ⟨g, hg, hfd, hfp, _, _⟩ := feeStep_ok h2
-  obtain ⟨d0, hd0, _, _, _, _, hbr⟩ := runPurchase_ok h1
+  obtain ⟨g, hg, hfd, hfp, _⟩ := feeStep_ok h2
+  obtain ⟨d0, hd0, _, _, _, hbr⟩ := runPurchase_ok h1
   rw [hd] at hd0; cases hd0
   rcases hbr with ⟨hlive, _⟩ | ⟨_, hbase, _, hdb, hpool, _⟩
   · omega
@@ -380,7 +345,7 @@ theorem created_record_is_off_sale (env : Env) (s s' : St) (o b : Addr) (n : Nam
     (c : Cur) (h : step env s (.create o b n u uo p c) = (.ok, s')) :
     ∃ d, alookup n s'.recs = some d ∧ d.onSale = false ∧ d.salePrice = none := by
   obtain ⟨_, s1, h1, h2⟩ := step_ok h
-  obtain ⟨_, _, _, _, hfr, _⟩ := feeStep_ok h2
+  obtain ⟨_, _, _, _, hfr⟩ := feeStep_ok h2
   obtain ⟨d, hrecs, h3, h4⟩ := runCreate_offSale h1
   exact ⟨d, by rw [hfr, hrecs, alookup_upsert_self], h3, h4⟩
 
@@ -410,8 +375,8 @@ theorem expiry_exact_create (env : Env) (s s' : St) (o b : Addr) (n : Name) (u :
     ∃ d, alookup n s'.recs = some d ∧
       d.expire = env.version + (p - env.opts.base) / env.opts.perBlock ∧ env.opts.base < p ∧ InInt64 d.expire := by
   obtain ⟨hv, s1, h1, h2⟩ := step_ok h
-  obtain ⟨_, _, _, _, hfr, _⟩ := feeStep_ok h2
-  obtain ⟨hp, _, _, _, _, _, _, d, hrecs, _, _, _, hexp⟩ := runCreate_ok h1
+  obtain ⟨_, _, _, _, hfr⟩ := feeStep_ok h2
+  obtain ⟨hp, _, _, _, _, _, d, hrecs, _, _, _, hexp⟩ := runCreate_ok h1
   simp only [hns, Bool.false_eq_true, if_false] at hexp
   obtain ⟨_, q, hq, he⟩ := hexp
   obtain ⟨hq1, _, hq3, hq4⟩ := blocksFor_some hq
@@ -428,8 +393,8 @@ theorem sub_created_with_parent_expiry (env : Env) (s s' : St) (o b : Addr) (n :
     ∃ d par, alookup n s'.recs = some d ∧ alookup (parentOf n) s.recs = some par ∧ par.owner = o ∧
       d.owner = o ∧ d.expire = par.expire := by
   obtain ⟨hv, s1, h1, h2⟩ := step_ok h
-  obtain ⟨_, _, _, _, hfr, _⟩ := feeStep_ok h2
-  obtain ⟨_, _, _, _, _, _, _, d, hrecs, hown, _, _, hexp⟩ := runCreate_ok h1
+  obtain ⟨_, _, _, _, hfr⟩ := feeStep_ok h2
+  obtain ⟨_, _, _, _, _, _, d, hrecs, hown, _, _, hexp⟩ := runCreate_ok h1
   simp only [hsub, if_true] at hexp
   obtain ⟨par, hpar, hpo, hpe⟩ := hexp
   exact ⟨d, par, by rw [hfr, hrecs, alookup_upsert_self], hpar, hpo, hown, hpe⟩
@@ -437,23 +402,24 @@ theorem sub_created_with_parent_expiry (env : Env) (s s' : St) (o b : Addr) (n :
 example : (alookup xfoo sOnSale.recs).map (·.expire) = some 50 ∧ (alookup foo sOnSale.recs).map (·.expire) = some 50 := by decide
 
 /-- renew: expiry += price / perBlock exactly, only by the owner, only before expiry; every
-    committed sub-name moves with it (pending ones: KF-C20-2) -/
+    sub-name moves with it (also one created earlier in the same block) -/
 theorem expiry_exact_renew (env : Env) (s s' : St) (o : Addr) (n : Name) (p : Int) (c : Cur)
     (h : step env s (.renew o n p c) = (.ok, s')) :
     ∃ d d', alookup n s.recs = some d ∧ d.owner = o ∧ env.version ≤ d.expire ∧ alookup n s'.recs = some d' ∧
       d'.owner = o ∧ d'.expire = d.expire + p / env.opts.perBlock ∧ InInt64 d'.expire ∧
-      ∀ k dk, visSub s.tree n k = true → alookup k s'.recs = some dk → dk.expire = d'.expire := by
+      ∀ k dk, isSubOf k n = true → alookup k s'.recs = some dk → dk.expire = d'.expire := by
   obtain ⟨hv, s1, h1, h2⟩ := step_ok h
-  obtain ⟨_, _, _, _, hfr, _⟩ := feeStep_ok h2
-  obtain ⟨d, hd, hown, _, _, _, hexp, _, _, _, q, hq, hrecs⟩ := runRenew_ok h1
+  obtain ⟨_, _, _, _, hfr⟩ := feeStep_ok h2
+  obtain ⟨d, hd, hown, _, _, _, hexp, _, _, q, hq, hrecs⟩ := runRenew_ok h1
   obtain ⟨hq1, _, hq3, hq4⟩ := blocksFor_some hq
-  have hnn : visSub s.tree n n = false := by simp [visSub, isSubOf_irrefl]
+  have hnn : visSub n n = false := by simp [visSub, isSubOf_irrefl]
   have hl : alookup n s'.recs = some { d with expire := d.expire + q, lastUpdate := env.height } := by
     rw [hfr, hrecs, alookup_mapSel, alookup_upsert_self]
     simp [hnn]
   refine ⟨d, _, hd, hown, ?_, hl, hown, by simp only [hq1], ⟨hq4, hq3⟩, fun k dk hk hdk => ?_⟩
   · simp [expiredAt] at hexp; exact hexp
-  · rw [hfr, hrecs, alookup_mapSel] at hdk
+  · have hk : visSub n k = true := hk
+    rw [hfr, hrecs, alookup_mapSel] at hdk
     cases hu : alookup k (upsert s.recs n { d with expire := d.expire + q, lastUpdate := env.height }) with
     | none => rw [hu] at hdk; cases hdk
     | some x =>
@@ -472,8 +438,8 @@ theorem expiry_exact_purchase_on_sale (env : Env) (s s' : St) (b a : Addr) (n : 
     (hsale : d.onSale = true) (hlive : env.version ≤ d.expire) (hp : d.salePrice = some price) :
     ∃ d', alookup n s'.recs = some d' ∧ d'.expire = d.expire + (o - price) / env.opts.perBlock ∧ InInt64 d'.expire := by
   obtain ⟨hv, s1, h1, h2⟩ := step_ok h
-  obtain ⟨_, _, _, _, hfr, _⟩ := feeStep_ok h2
-  obtain ⟨d0, hd0, _, _, _, _, hbr⟩ := runPurchase_ok h1
+  obtain ⟨_, _, _, _, hfr⟩ := feeStep_ok h2
+  obtain ⟨d0, hd0, _, _, _, hbr⟩ := runPurchase_ok h1
   rw [hd] at hd0; cases hd0
   rcases hbr with ⟨_, _, price', b0, q, hsp, _, _, _, _, hq, hrecs⟩ | ⟨hn, _⟩
   · rw [hp] at hsp; cases hsp
@@ -495,8 +461,8 @@ theorem expiry_exact_purchase_expired (env : Env) (s s' : St) (b a : Addr) (n : 
     (hexp : d.expire < env.version) :
     ∃ d', alookup n s'.recs = some d' ∧ d'.expire = env.version + (o - env.opts.base) / env.opts.perBlock ∧ InInt64 d'.expire := by
   obtain ⟨hv, s1, h1, h2⟩ := step_ok h
-  obtain ⟨_, _, _, _, hfr, _⟩ := feeStep_ok h2
-  obtain ⟨d0, hd0, _, _, _, _, hbr⟩ := runPurchase_ok h1
+  obtain ⟨_, _, _, _, hfr⟩ := feeStep_ok h2
+  obtain ⟨d0, hd0, _, _, _, hbr⟩ := runPurchase_ok h1
   rw [hd] at hd0; cases hd0
   rcases hbr with ⟨hlive, _⟩ | ⟨_, _, q, _, _, hq, hrecs⟩
   · omega
